@@ -22,6 +22,7 @@
 From Coq Require Import ZArith List Bool Permutation.
 From FT Require Import Base.Dict Model.Edit Model.EditExec Proofs.EditReadOnly.
 From FT Require Gen.CoreQueries_gen Gen.CoreTracks_gen Proofs.CoreTieQueries Proofs.CoreTieTracks.
+From FT Require Proofs.ExportTie.
 Import ListNotations.
 Open Scope Z_scope.
 
@@ -124,6 +125,28 @@ Proof.
   exact FT.Proofs.CoreTieTracks.gen_get_new_node_ids_eq.
 Qed.
 
+(* ---- the exporters are, in the model, the code translated on every run from csv/_export.py, geff/_export.py,
+        internal_format.py and _feature_dict.py (Gen/ExportPipeline_gen.v; Proofs/ExportTie.v).  The translator
+        treats the tracks object as READ-ONLY: any in-place modification of it, or of a value reachable from it
+        (graph, segmentation, scale, feature registry), is outside its idiom table and refused, so a generated
+        exporter is a function from the tracks to the list of values handed to the file writers, and the theorems
+        below say which values those are.  (What the translator cannot see - the library calls it maps to
+        primitives - is covered by the deep before / after snapshot of the harness.) ---- *)
+Theorem C16_export_csv_is_generated : ltac:(let t := type of @FT.Proofs.ExportTie.gen_export_to_csv_all_eq in exact t).
+Proof. exact @FT.Proofs.ExportTie.gen_export_to_csv_all_eq. Qed.
+
+Theorem C16_export_csv_subset_is_generated : ltac:(let t := type of @FT.Proofs.ExportTie.gen_export_to_csv_subset_eq in exact t).
+Proof. exact @FT.Proofs.ExportTie.gen_export_to_csv_subset_eq. Qed.
+
+Theorem C16_export_geff_is_generated : ltac:(let t := type of @FT.Proofs.ExportTie.gen_export_to_geff_all_seg_eq in exact t).
+Proof. exact @FT.Proofs.ExportTie.gen_export_to_geff_all_seg_eq. Qed.
+
+Theorem C16_export_geff_subset_is_generated : ltac:(let t := type of @FT.Proofs.ExportTie.gen_export_to_geff_subset_seg_eq in exact t).
+Proof. exact @FT.Proofs.ExportTie.gen_export_to_geff_subset_seg_eq. Qed.
+
+Theorem C16_save_is_generated : ltac:(let t := type of @FT.Proofs.ExportTie.gen_save_attrs_eq in exact t).
+Proof. exact @FT.Proofs.ExportTie.gen_save_attrs_eq. Qed.
+
 Example C16_nonvacuous :
   let '(s1, r) := track_neighbors ex_state 1 1 in
   r = (Some 1, Some 3) /\
@@ -155,3 +178,8 @@ Print Assumptions C16_run.
 Print Assumptions C16_new_ids_exception.
 Print Assumptions C16_queries_respect_ro.
 Print Assumptions C16_queries_are_generated.
+Print Assumptions C16_export_csv_is_generated.
+Print Assumptions C16_export_csv_subset_is_generated.
+Print Assumptions C16_export_geff_is_generated.
+Print Assumptions C16_export_geff_subset_is_generated.
+Print Assumptions C16_save_is_generated.
